@@ -11,6 +11,8 @@ import FordModel.Lemmas.ProjectLoop
 import FordModel.Lemmas.Nesting
 import FordModel.Lemmas.Backtrack
 import FordModel.Lemmas.Markup
+import FordModel.Lemmas.EnumValues
+import FordModel.Lemmas.IncludeNest
 import FordModel.TypeSpec
 namespace Ford.C20
 open Ford
@@ -511,6 +513,147 @@ theorem escape_quirks_witness :
     ∧ Markup.lostBackslash (chars! "a\\[1].f90") = true ∧ Markup.emojiCandidate (chars! "z:x:.f90") = true := by
   decide +kernel
 
+/-! ## round 6 - defects that are found when a block is closed (enumerator values), and what a rejected
+   file leaves behind in the process (models FordModel/EnumValues.lean; tables `Gen.enumProbes`,
+   `Gen.enumLateRaise`, `Gen.leftBehind`, observed on the code by translate/c20late.py) -/
+
+/-- **Reported and skipped - enumerators.**  An ENUM block with an enumerator whose given value is not an
+    integer literal for `int` (after `remove_kind_suffix`) makes `_cleanup` raise - wherever in the block it
+    stands, whatever the other enumerators are. -/
+theorem non_integer_enumerator_raises (es : List EnumValues.Enumerator)
+    (h : es.any EnumValues.badEnumerator = true) : EnumValues.enumOk es = false :=
+  EnumValues.enumOk_false_of_bad es h
+
+/-- **Nothing is left for a later stage.**  When `_cleanup` comes through, every enumerator has its integer
+    value (one per enumerator) and none of them is a bad one: there is no enumerator whose value still has to
+    be worked out - and could fail - after the file was registered, outside the per-file handler. -/
+theorem enumerator_values_complete (es : List EnumValues.Enumerator) (vs : List Int)
+    (h : EnumValues.enumCleanup es = .ok vs) :
+    vs.length = es.length ∧ ∀ e ∈ es, EnumValues.badEnumerator e = false :=
+  EnumValues.cleanupFrom_ok es (-1) vs h
+
+/-- **Contained.**  A file with such an ENUM block - whatever its statements are otherwise, whatever other
+    ENUM blocks it has - read at *any* position leaves all project lists as if it were absent. -/
+theorem non_integer_enumerator_contained (k : Nat) (f : Str) (o : Outcome)
+    (enums : List (List EnumValues.Enumerator)) (good : List (Str × Except Err FileTree))
+    (h : enums.any (fun es => es.any EnumValues.badEnumerator) = true) :
+    (loadAll true (insertFileAt k (f, toLoad (EnumValues.fileWithEnums o enums)) good)).reg = (loadAll true good).reg := by
+  obtain ⟨e, r, he⟩ := EnumValues.fileWithEnums_skipped o enums h
+  rw [he]
+  exact contained k f e good
+
+/-- A registered file has come through the `_cleanup` of every one of its ENUM blocks. -/
+theorem registered_file_has_all_enumerator_values (o : Outcome) (enums : List (List EnumValues.Enumerator))
+    (p : List Str) (r : List Rep) (h : EnumValues.fileWithEnums o enums = .registered p r) :
+    ∀ es ∈ enums, ∃ vs, EnumValues.enumCleanup es = .ok vs ∧ vs.length = es.length := by
+  intro es hes
+  cases o with
+  | skipped e r' => simp [EnumValues.fileWithEnums] at h
+  | registered p' r' =>
+    have hall : enums.all EnumValues.enumOk = true := by
+      cases hq : enums.all EnumValues.enumOk with
+      | true => rfl
+      | false => simp [EnumValues.fileWithEnums, hq] at h
+    have hok := (List.all_eq_true.mp hall) es hes
+    unfold EnumValues.enumOk at hok
+    cases hc : EnumValues.enumCleanup es with
+    | error n => simp [hc] at hok
+    | ok vs => exact ⟨vs, rfl, (EnumValues.cleanupFrom_ok es (-1) vs hc).1⟩
+
+/-- Over the generated `enumProbes`: on every probe the model = what the real `FortranEnum._cleanup` did
+    inside the file's constructor (raised, or the values it gave the enumerators without `= value`). -/
+theorem enum_probes : Gen.enumProbes.all (fun p => decide (EnumValues.probeObs p.1 = p.2)) = true := by
+  decide +kernel
+
+/-- Over the generated `enumLateRaise`: no probe got through the constructor and made `Project.correlate()`
+    raise afterwards - a defect of an enumerator comes to light inside the per-file handler or never. -/
+theorem enum_errors_surface_inside_the_handler : Gen.enumLateRaise = [] := by decide
+
+/-- Over the generated `leftBehind`: no class- or module-level object of the reading / parsing modules has
+    another value after `Project()` over valid + rejected files (rejected in the constructor, in the reader,
+    inside an INCLUDE: reader error, recursion, missing, undecodable) than after the valid files alone. -/
+theorem rejected_files_leave_no_process_state : Gen.leftBehind = [] := by decide
+
+open Ford.TypeSpec in
+/-- `remove_kind_suffix` + `int` as they are: `2_int8` is 2, `10_8` is read as 108, `3_c_int` (a legal kind)
+    and a named constant are rejected; a bad enumerator in the middle rejects the block. -/
+theorem enumerator_value_quirks_witness :
+    EnumValues.valuesOf [⟨['a'], some (chars! "2_int8")⟩, ⟨['b'], none⟩] = some [2, 3]
+    ∧ EnumValues.valuesOf [⟨['a'], some (chars! "10_8")⟩, ⟨['b'], none⟩] = some [108, 109]
+    ∧ EnumValues.raisedFor [⟨['a'], some (chars! "3_c_int")⟩] = some ['a']
+    ∧ EnumValues.raisedFor [⟨['a'], some (chars! "1")⟩, ⟨['b'], some (chars! "offset")⟩, ⟨['c'], none⟩] = some ['b'] := by
+  decide +kernel
+
+/-! ## round 6 - INCLUDE: nested readers over a directory tree (model FordModel/IncludeNest.lean) -/
+
+/-- **A failure inside an INCLUDE is a failure of the file that is being parsed.**  The first INCLUDE line of
+    a file (nothing but ordinary statements before it) names a file on which the nested reader raises - a
+    missing file further down, undecodable bytes, a line the reader refuses, the recursion limit -: the reader
+    of the including file ends with that very exception, whatever follows the line, at any nesting depth. -/
+theorem include_failure_rejects_the_including_file (fs : IncludeNest.Fs) (dirs : List IncludeNest.Path) (d : Nat)
+    (top p : IncludeNest.Path) (pre : List Str) (s : Str) (post : List Str) (e : IncludeNest.IncErr)
+    (hbody : fs.get top = some (.items (pre ++ s :: post)))
+    (hpre : IncludeNest.noInclude pre = true) (hs : IncludeNest.isIncludeLine s = true)
+    (hres : IncludeNest.resolve fs (IncludeNest.includeName s) (IncludeNest.dirOf top :: dirs) = some p)
+    (herr : IncludeNest.readFile fs dirs d p = .error e) :
+    IncludeNest.readFile fs dirs (d + 1) top = .error e :=
+  IncludeNest.readFile_nested_error fs dirs d top p pre s post e hbody hpre hs hres herr
+
+/-- **Never hangs - a file that includes itself.**  Whatever the recursion limit `d` is, reading a file whose first
+    INCLUDE line resolves to the file itself ends, with `RecursionError` (an `Exception`: the per-file handler
+    sees it); `readFile` is total by structural recursion on `d`. -/
+theorem self_include_ends_in_recursion_error (fs : IncludeNest.Fs) (dirs : List IncludeNest.Path)
+    (top : IncludeNest.Path) (pre : List Str) (s : Str) (post : List Str)
+    (hbody : fs.get top = some (.items (pre ++ s :: post)))
+    (hpre : IncludeNest.noInclude pre = true) (hs : IncludeNest.isIncludeLine s = true)
+    (hres : IncludeNest.resolve fs (IncludeNest.includeName s) (IncludeNest.dirOf top :: dirs) = some top) (d : Nat) :
+    IncludeNest.readFile fs dirs d top = .error .recursion :=
+  IncludeNest.readFile_self_include fs dirs top pre s post hbody hpre hs hres d
+
+/-- **Contained.**  A source file whose reader - nested readers included - raises is rejected, and read at any
+    position it leaves the project as if it were absent. -/
+theorem include_failure_contained (cfg : Cfg) (hd : cfg.dbg = true) (k : Nat) (f : Str)
+    (classify : List Str → List Stmt) (fs : IncludeNest.Fs) (dirs : List IncludeNest.Path) (d : Nat)
+    (top : IncludeNest.Path) (e : IncludeNest.IncErr) (herr : IncludeNest.readFile fs dirs d top = .error e)
+    (good : List (Str × Src)) :
+    (loadProject cfg (insertFileAt k (f, IncludeNest.srcOfRead classify (IncludeNest.readFile fs dirs d top)) good)).reg
+      = (loadProject cfg good).reg := by
+  apply project_contained cfg hd
+  rw [herr]
+  cases e <;> simp [IncludeNest.srcOfRead, srcOutcome, Outcome.isSkipped]
+
+/-- **The other files are read as before.**  A file without INCLUDE lines is delivered item by item as its own
+    reader made it, whatever else is on disk and whatever `inc_dirs` says. -/
+theorem file_without_include_unchanged (fs : IncludeNest.Fs) (dirs : List IncludeNest.Path) (d : Nat)
+    (top : IncludeNest.Path) (its : List Str) (hbody : fs.get top = some (.items its))
+    (h : IncludeNest.noInclude its = true) : IncludeNest.readFile fs dirs (d + 1) top = .ok its := by
+  simp [IncludeNest.readFile, hbody, IncludeNest.expandWith_noInclude fs dirs _ top its h]
+
+/-- The directory of the file that holds the INCLUDE line is searched first, before every entry of `inc_dirs`. -/
+theorem include_searched_beside_the_includer_first (fs : IncludeNest.Fs) (name : Str) (here : IncludeNest.Path)
+    (dirs : List IncludeNest.Path) (h : (fs.get (IncludeNest.joinPath (IncludeNest.dirOf here) name)).isSome = true) :
+    IncludeNest.resolve fs name (IncludeNest.dirOf here :: dirs) = some (IncludeNest.joinPath (IncludeNest.dirOf here) name) :=
+  IncludeNest.resolve_first fs name _ dirs h
+
+open Ford.TypeSpec in
+/-- The exception of a nested reader names the *include* file (`/r/inc/limits.inc`), not the source file that is
+    rejected (`/r/solver.f90`) - why the handler's message has to carry the path itself (round 5); a `.h` file
+    that is not found is no error; the same name beside the includer wins over `inc_dirs`. -/
+theorem include_error_names_the_include_file_witness :
+    IncludeNest.errOf (IncludeNest.readFile
+        [([chars! "r", chars! "solver.f90"], .items [chars! "module m", chars! "include 'inc/limits.inc'", chars! "end module m"]),
+         ([chars! "r", chars! "inc", chars! "limits.inc"], .refusedAfter [chars! "integer :: n"])]
+        [] 8 [chars! "r", chars! "solver.f90"]) = some (.refused [chars! "r", chars! "inc", chars! "limits.inc"])
+    ∧ IncludeNest.itemsOf (IncludeNest.readFile
+        [([chars! "r", chars! "a.f90"], .items [chars! "INCLUDE \"conf.h\"", chars! "x = 1"])] [] 8 [chars! "r", chars! "a.f90"])
+        = some [chars! "INCLUDE \"conf.h\"", chars! "x = 1"]
+    ∧ IncludeNest.itemsOf (IncludeNest.readFile
+        [([chars! "r", chars! "sub", chars! "a.f90"], .items [chars! "include'c.inc'"]),
+         ([chars! "r", chars! "inc", chars! "c.inc"], .items [chars! "y = 2"]),
+         ([chars! "r", chars! "sub", chars! "c.inc"], .items [chars! "y = 1"])]
+        [[chars! "r", chars! "inc"]] 8 [chars! "r", chars! "sub", chars! "a.f90"]) = some [chars! "y = 1"] := by
+  decide +kernel
+
 /-! non-vacuity -/
 example : (match step {} initMS ⟨.module, "m".toList⟩ false with
            | .ok st1 => st1.stack.length | .error _ => 0) = initMS.stack.length + 1 := by decide
@@ -535,5 +678,18 @@ example : Gen.warnProbes.length ≥ 10 ∧ Gen.progressProbes.length ≥ 6
     ∧ (Gen.warnProbes.any (fun p => p.1.any (· == '[') && p.1.any (· == '/'))) = true := by decide +kernel
 example : parseFile { dbg := false } [⟨.contains, []⟩] = .skipped .printError [] := by decide
 example : parseFile { skipReported := true } [⟨.contains, []⟩] = .skipped .reported [.unexpectedContains] := by decide
+example : Gen.enumProbes.length ≥ 20 ∧ (Gen.enumProbes.any (fun p => p.2.isNone)) = true
+    ∧ (Gen.enumProbes.any (fun p => p.2.isSome)) = true := by decide +kernel
+open Ford.TypeSpec in
+example : EnumValues.fileWithEnums (parseFile {} [⟨.module, ['m']⟩, ⟨.enum, []⟩, ⟨.variable, ['a']⟩, ⟨.endUnit, []⟩, ⟨.endUnit, []⟩])
+    [[⟨['a'], some (chars! "1.5")⟩]] = .skipped .enumValue [] := by decide +kernel
+open Ford.TypeSpec in
+example : IncludeNest.errOf (IncludeNest.readFile
+    [([chars! "r", chars! "a.f90"], .items [chars! "x = 0", chars! "include 'a.f90'"])] [] 40 [chars! "r", chars! "a.f90"])
+    = some .recursion := by decide +kernel
+open Ford.TypeSpec in
+example : IncludeNest.isIncludeLine (chars! "Include  'x.inc'") = true ∧ IncludeNest.isIncludeLine (chars! "include_me = 1") = false
+    ∧ IncludeNest.includeName (chars! "include 'inc/x.inc'") = chars! "inc/x.inc"
+    ∧ IncludeNest.joinPath [chars! "r", chars! "inc"] (chars! "../up/./x.inc") = [chars! "r", chars! "up", chars! "x.inc"] := by decide +kernel
 
 end Ford.C20
